@@ -210,6 +210,7 @@ class C02(Plugin):
         cfg['p_query'] = rng.choice([0.0, 0.3, 0.5])
         cfg['check_mode'] = rng.choice(['every', 'every', 'end', 'end_and_mid'])
         cfg['p_hold'] = rng.choice([0.0, 0.15])
+        cfg['p_focus'] = rng.choice([0.0, 0.15, 0.3])     # sparse schedule: query SOME ancestors of a node, then edit that node
         cfg['p_par'] = rng.choice([0.0, 0.1, 0.25])      # par() / unpar() as edits
         cfg['p_offset'] = rng.choice([0.0, 0.0, 0.15])    # pure-trivia put_src(action='offset') as edits
         cfg['max_lines'] = 40
@@ -217,6 +218,31 @@ class C02(Plugin):
 
     def start(self):
         self.views = {}
+        self.focus = None
+
+    def gen_focus(self, rng):
+        """Two consecutive ops: (1) query a random non-empty SUBSET of the ancestors of a deep node (so that some caches
+        on the way up are warm and some are cold), (2) edit exactly that node.  Returns op (1) and remembers (2)."""
+        from . import corpus
+        from .model import path_str
+        run = self.run
+        nodes = [t for t in O.all_nodes(run.root.a) if len(t[0]) >= 2]
+        if not nodes:
+            return None
+        stmts = [t for t in nodes if isinstance(t[1], ast.stmt)]
+        path, node, parent, field, idx = rng.choice(stmts if stmts and rng.random() < 0.7 else nodes)
+        anc = [path[:k] for k in range(0, len(path))]  # root ... parent
+        pick = [a for a in anc if rng.random() < 0.5] or [rng.choice(anc)]
+        r = rng.random()
+        if isinstance(node, ast.stmt) and r < 0.5:
+            nxt = {'k': 'put_line_comment', 'path': [list(p) for p in path], 'text': rng.choice(corpus.COMMENT_TEXTS + [None, 'a considerably longer line comment than before'])}
+        elif r < 0.8:
+            cat = O.node_cat(node, parent, field)
+            nxt = {'k': 'replace', 'path': [list(p) for p in path], 'opts': {}, 'code': O.gen_code(rng, cat, 1, ('src',))}
+        else:
+            nxt = {'k': 'remove', 'path': [list(p) for p in path], 'opts': {}}
+        self.focus = nxt
+        return {'k': 'query', 'paths': sorted({path_str(a) for a in pick}), 'level': rng.choice([1, 2])}
 
     def gen_par_op(self, rng):
         """par() / unpar() of an expression or pattern node; unpar is biased to nodes that are parenthesized in the source."""
@@ -246,6 +272,13 @@ class C02(Plugin):
     def gen_op(self, rng):
         run = self.run
         tree = run.root.a
+        if self.focus is not None:
+            op, self.focus = self.focus, None
+            return op
+        if rng.random() < run.cfg.get('p_focus', 0):
+            op = self.gen_focus(rng)
+            if op is not None:
+                return op
         r = rng.random()
         if r < run.cfg['p_query']:
             nodes = O.all_nodes(tree)
